@@ -337,5 +337,62 @@ pub fn relations(args: &Args, s: &mut Summary) {
             }
         }
     }
+    // "5 ms after each node" at FRACTIONAL node times: a sample point placed a little before / exactly at / a little after
+    // node + 5 ms decides for exactly the nodes the statement says (the model's durations are whole milliseconds)
+    for trial in 0..(if thorough { 4000 } else { 600 }) {
+        let bl = *rng.pick(&["350", "400", "500", "333.333333333333", "275.5"]);
+        let sm = *rng.pick(&["1", "1.4", "0.8", "2.25"]);
+        let len = *rng.pick(&[15.0f64, 13.125, 77.7, 120.5, 33.3, 100.0]);
+        let spans = 1 + rng.below(4);
+        let start = *rng.pick(&[1000.0f64, 1000.5, 12345.25, 250.0]);
+        let head = format!("osu file format v14\n\n[Difficulty]\nSliderMultiplier:{sm}\n\n[TimingPoints]\n0,{bl},4,1,0,100,1,0\n");
+        let obj = format!("\n[HitObjects]\n100,100,{start},2,0,L|{}:100,{spans},{len}\n", 100.0 + len + 50.0);
+        let Ok(Ok(m0)) = guarded("node boundary base", || rosu_map::from_str::<Beatmap>(&format!("{head}{obj}"))) else {
+            s.mismatch("io-error", json!({"what": "node boundary base"}));
+            continue;
+        };
+        let dur = match m0.hit_objects.first().map(|h| h.clone()) {
+            Some(mut h) => match &mut h.kind {
+                HitObjectKind::Slider(sl) => sl.duration(),
+                _ => continue,
+            },
+            None => continue,
+        };
+        let node = rng.below(spans + 1);
+        let delta = *rng.pick(&[-1.0f64, -0.5, -0.25, -0.001, 0.0, 0.001, 0.25, 0.5, 1.0]);
+        let t_point = start + node as f64 * dur / spans as f64 + 5.0 + delta;
+        let text = format!("{head}{t_point},-100,4,2,0,50,0,0\n{obj}");
+        let r = guarded(&format!("node boundary {text:?}"), || rosu_map::from_str::<Beatmap>(&text));
+        s.checks += 1;
+        match r {
+            Err(p) => s.mismatch("panic", json!({"text": text, "panic": p})),
+            Ok(Err(e)) => s.mismatch("io-error", json!({"text": text, "err": e.to_string()})),
+            Ok(Ok(m)) => {
+                s.cases += 1;
+                let Some(HitObjectKind::Slider(sl)) = m.hit_objects.first().map(|h| &h.kind) else { continue };
+                let mut bad: Vec<String> = vec![];
+                for (j, ns) in sl.node_samples.iter().enumerate() {
+                    let look = start + j as f64 * dur / spans as f64 + 5.0;
+                    let want = if t_point <= look { (2, 50) } else { (1, 100) };
+                    if let Some(x) = ns.first() {
+                        if (x.bank as i32, x.volume) != want {
+                            bad.push(format!("node {j} (looked up at {look}) has bank {} volume {}, the point at {t_point} {} active there", x.bank as i32, x.volume,
+                                             if want.0 == 2 { "is" } else { "is not" }));
+                        }
+                    }
+                }
+                let end_look = start + dur + 5.0;
+                if let Some(x) = m.hit_objects[0].samples.first() {
+                    let want = if t_point <= end_look { (2, 50) } else { (1, 100) };
+                    if (x.bank as i32, x.volume) != want {
+                        bad.push(format!("the slider's own sample (looked up at {end_look}) has bank {} volume {}", x.bank as i32, x.volume));
+                    }
+                }
+                if !bad.is_empty() {
+                    s.mismatch("node-sample-point-boundary", json!({"text": text, "trial": trial, "problems": bad}));
+                }
+            }
+        }
+    }
     s.sample(json!({"files": files.len(), "shifts": [-1000000, -777, -1, 1, 3, 1000, 1000000]}));
 }
